@@ -134,6 +134,17 @@ def gen(rng, quick, tables, nmax):
                 ops.append({"op": "ed.precomputed", "static_points": st, "static_scalars": scalars(ns, 2), "dynamic_scalars": scalars(len(dy), 2),
                             "dynamic_points": dy, "mode": mode, "out": "R"})
             ops.append({"op": "ed.precomputed", "static_points": st, "static_scalars": scalars(k, 2), "dynamic_scalars": [], "dynamic_points": [], "mode": "static", "out": "R"})
+    # one multiscalar multiplication in the radix-2^8 Pippenger regime (>= 800 terms) whose scalars carry the extreme digits
+    # -128 / 127 / 128 (cheap for the specification: the points are an arithmetic progression)
+    if nmax < 801:
+        n = 801
+        ops += [{"op": "reset"}, {"op": "ed.mul_base", "in": [le(rng.randrange(1, L))], "out": "M0"}, {"op": "ed.basepoint", "out": "Q"}]
+        names = ["M0"]
+        for i in range(1, n):
+            ops.append({"op": "ed.add", "in": [names[-1], "Q"], "out": "M%d" % i})
+            names.append("M%d" % i)
+        sc = [le(rng.choice([128, 127, 129, 255, 256, 128 << 8, 128 << 16, (128 << 240) % L, rng.randrange(1 << 16), 0, 1])) for _ in range(n)]
+        ops.append({"op": "ed.vartime_multiscalar_mul", "scalars": sc, "points": names, "out": "R"})
     return ops
 
 
